@@ -1,7 +1,9 @@
 package props
 
 import (
+	"context"
 	"fmt"
+	"sync"
 	"time"
 
 	p9p "github.com/frobnitzem/go-p9p"
@@ -17,7 +19,7 @@ func init() {
 		Level: "fault_enumeration",
 		Rule: "operation sequences (biased towards binding many fids: attach, walks onto new fids, in-place walks, opens, creates of files and directories, clunks, removes) are first run fault-free on SFileSys(instrumented FS) to number the FS calls 1..N; " +
 			"then EVERY single call index is failed in both flavours (error, nil result), sampled pairs of indices are failed, and Session.Stop is issued after EVERY prefix of the sequence. Oracle: the release monitor inside the FS (each handle has a unique id and a state: " +
-			"double release, use after release/consume — also through its File or directory iterator, use of a partial-walk placeholder), the fid-table hook after every call (nothing released stays bound), the reference model for which handle receives which release call, and after Stop: every handle that was bound is released by exactly one Clunk, the hook table holds no entry, no handle that was handed out for binding is still live; a call not returned at quiescence is a hang. " +
+			"double release, use after release/consume — also through its File or directory iterator, use of a partial-walk placeholder), the fid-table hook after every call (nothing released stays bound), the reference model for which handle receives which release call, and after Stop: every handle that was bound is released by exactly one Clunk, the hook table holds no entry, no handle that was handed out for binding is still live; a call not returned at quiescence is a hang. A second family queues an operation B on a fid's lock while operation A on the same fid is parked inside the file system on one of the release paths (clunk, remove, in-place walk, create, mkdir whose OpenDir fails) and lets the same monitors judge what B then does to the entry. " +
 			"non-trivial = the sequence bound >= 2 handles and the fault hit a call made while >= 1 handle was bound; distinct by (sequence hash, fault indices, stop point)",
 		Assumptions: []string{
 			"exhaustive over (sequence, single fault index x 2 flavours) and (sequence, stop prefix) for the generated sequences; sequences themselves and fault pairs are sampled",
@@ -27,7 +29,7 @@ func init() {
 		Shards:   shards(8, 16),
 		Timeout:  timeouts(5*time.Minute, 30*time.Minute),
 		MinEvals: 1000,
-		Required: []string{"path:clunk", "path:remove", "path:consumed-by-create", "path:replaced-by-inplace-walk", "path:stop", "single_fault_runs", "pair_fault_runs", "stop_prefix_runs", "faults_that_hit"},
+		Required: []string{"path:clunk", "path:remove", "path:consumed-by-create", "path:replaced-by-inplace-walk", "path:stop", "single_fault_runs", "pair_fault_runs", "stop_prefix_runs", "faults_that_hit", "queued_pair_runs"},
 		Run:      runC13,
 	})
 }
@@ -117,7 +119,114 @@ func countPaths(w *mon.W, r seqResult) {
 	w.Count("path:stop", int64(r.stopReleased))
 }
 
+// c13Queued: operation B is queued on a fid's lock while operation A on the same fid is
+// inside the file system; A then takes one of the release paths (or fails on it). The
+// release monitor judges what B does to the entry afterwards.
+func c13Queued(w *mon.W, no int) {
+	r := w.Rng
+	ctx := context.Background()
+	fs := fsx.New()
+	sess := p9p.SFileSys(fs)
+	type opf func() error
+	stat := func(f p9p.Fid) opf { return func() error { _, err := sess.Stat(ctx, f); return err } }
+	clunk := func(f p9p.Fid) opf { return func() error { return sess.Clunk(ctx, f) } }
+	remove := func(f p9p.Fid) opf { return func() error { return sess.Remove(ctx, f) } }
+	clone := func(f, g p9p.Fid) opf { return func() error { _, err := sess.Walk(ctx, f, g); return err } }
+	read := func(f p9p.Fid) opf {
+		return func() error { _, err := sess.Read(ctx, f, make([]byte, 8), 0); return err }
+	}
+	sess.Attach(ctx, 0, p9p.NOFID, "u", "")
+	sess.Walk(ctx, 0, 1, "d") // fid 1: directory /d
+	sess.Walk(ctx, 0, 2, "a") // fid 2: file /a, open
+	sess.Open(ctx, 2, p9p.ORDWR)
+	sess.Walk(ctx, 0, 3, "d", "g") // fid 3: directory /d/g, open
+	sess.Open(ctx, 3, p9p.OREAD)
+	var A opf
+	var f p9p.Fid
+	parkOp := "" // FS call of A at which it parks
+	name := ""
+	switch r.Intn(7) {
+	case 0:
+		f, name, parkOp = 1, "mkdir whose OpenDir fails", "opendir"
+		A = func() error { _, _, err := sess.Create(ctx, 1, "odfail7", p9p.DMDIR|0755, p9p.OREAD); return err }
+	case 1:
+		f, name, parkOp = 1, "mkdir whose OpenDir fails (parked in create)", "create"
+		A = func() error { _, _, err := sess.Create(ctx, 1, "odfail8", p9p.DMDIR|0755, p9p.OREAD); return err }
+	case 2:
+		f, name, parkOp = 2, "clunk", "clunk"
+		A = clunk(2)
+	case 3:
+		f, name, parkOp = 2, "remove", "remove"
+		A = remove(2)
+	case 4:
+		f, name, parkOp = 1, "in-place walk", "walk"
+		A = func() error { _, err := sess.Walk(ctx, 1, 1, "g"); return err }
+	case 5:
+		f, name, parkOp = 1, "create of a file", "create"
+		A = func() error { _, _, err := sess.Create(ctx, 1, "queued-new", 0644, p9p.ORDWR); return err }
+	default:
+		f, name, parkOp = 3, "clunk of an open directory", "clunk"
+		A = clunk(3)
+	}
+	bs := []struct {
+		n string
+		f opf
+	}{{"Stat", stat(f)}, {"Clunk", clunk(f)}, {"Remove", remove(f)}, {"clone", clone(f, 9)}, {"Read", read(f)}}
+	B := bs[r.Intn(len(bs))]
+	desc := fmt.Sprintf("queued #%d: A = %s on fid %d (parked in FS %s), B = %s on the same fid queued behind it", no, name, f, parkOp, B.n)
+	w.Case("C13 %s", desc)
+	w.Eval()
+	w.Count("queued_pair_runs", 1)
+	release := make(chan struct{})
+	parkedCh := make(chan struct{})
+	var once sync.Once
+	fs.Gate = func(c *fsx.Call) {
+		if c.Op == parkOp {
+			first := false
+			once.Do(func() { first = true })
+			if first {
+				close(parkedCh)
+				<-release
+			}
+		}
+	}
+	aDone, bDone := make(chan struct{}), make(chan struct{})
+	go func() { A(); close(aDone) }()
+	if q := mon.AwaitQuiesce(parkedCh); !q.Done {
+		close(release)
+		w.Inconclusive("A never reached the FS call %s: %s", parkOp, desc)
+		return
+	}
+	go func() { B.f(); close(bDone) }()
+	settle() // B is now waiting for the fid
+	close(release)
+	both := make(chan struct{})
+	go func() { <-aDone; <-bDone; close(both) }()
+	if q := mon.AwaitQuiesce(both); q.Hung {
+		w.Violate("hang", "C13:queued-hang:"+q.Sites, fmt.Sprintf("%s: the operations do not return; blocked at %s", desc, q.Sites), nil)
+		return
+	} else if q.Inconclusive {
+		return
+	}
+	fs.Gate = nil
+	sess.Stop(nil)
+	if ps := fs.Problems(); len(ps) > 0 {
+		w.Violate(ps[0].Kind, "C13:queued:"+ps[0].Kind, fmt.Sprintf("%s: %s", desc, ps[0].Msg), map[string]interface{}{"case": desc})
+		return
+	}
+	for _, p := range fs.FinalCheck() {
+		w.Violate(p.Kind, "C13:queued:"+p.Kind+":final", fmt.Sprintf("%s: after Stop: %s", desc, p.Msg), map[string]interface{}{"case": desc})
+		return
+	}
+	w.NT(fmt.Sprintf("queued/%s/%s/%s", name, parkOp, B.n))
+}
+
 func runC13(w *mon.W) {
+	for i := 0; i < w.Scale(600, 20000); i++ {
+		if w.Mine(i) {
+			c13Queued(w, i)
+		}
+	}
 	seqs := w.Scale(500, 20000)
 	for i := 0; i < seqs; i++ {
 		if !w.Mine(i) {
